@@ -26,6 +26,10 @@ def floatCatchesOverflow : Bool := true
     a custom scalar that brought its OWN parse_literal is handed every kind of literal (list / object / enum / null inside). -/
 def customOwnParseLiteralTakesAnyLiteral : Bool := true
 
+/-- `default_scalar(...)`: `parse=_transparent`; observed on the live function: NaN / +-Infinity, at the top level and nested in lists / dicts,
+    are refused (ValueError), finite values pass. -/
+def defaultScalarParseRejectsNonFinite : Bool := true
+
 /-- literal kinds admitted by each specified scalar's `parse_literal` (`_typed_coerce(f, *node classes)`) -/
 def literalKinds : List (String × List String) := [
   ("Int", ["int"]),
